@@ -3,6 +3,7 @@ package main
 // C04: Postgres JSON validators.
 
 import (
+	"fmt"
 	"go/ast"
 	"go/constant"
 	"go/types"
@@ -13,7 +14,10 @@ func init() { register("C04", "other", checkC04) }
 
 func checkC04(w *World, r *Result) {
 	r.Explanation = "Decides structural necessary conditions on generator/sql/json.go and tables.go: AGR-C04a/AGR-MD every validator a function body calls (functionName(child)) is generated in the same function on the same path (codeFor(child)), and the naming function never follows a child the generator skips (REC-SHAPE): every called validator is defined in the script; AGR-C04b a jsonb column gets, in one branch, the declarations of its validators and a CHECK calling the validator named for that very type, and jsonValidations names and generates the same type; DECL-ID the CHECK declaration's ID covers table, column and validator (no two CHECKs merged away); AGR-C04n the optional fragments of the array validator are present exactly for their case: the length criterion for fixed arrays (Len >= 0), the empty-array and null acceptance only for slices; the map validator accepts null; AGR-C04l struct keys and per-key checks are appended in lock-step, once per exported field keyed by JSONName (CONS), with an unknown-key rejection (key IN …); AGR-C04u the union validator switches on the members' local Go names (AGR-C02b) and ends with ELSE RETURN FALSE; AGR-C04e the enum validator lists every member via enumTuple with the cast matching the enum's kind; EXH-b typeID and codeFor accept the same kinds; TPL-4 bracket and BEGIN/IF/CASE balance of the PL/pgSQL templates. Does not decide: acceptance or rejection of any document under PostgreSQL's three-valued semantics (needs an evaluator of PL/pgSQL). Known finding: typeID recurses through named types without a guard (`type T []T`)."
-	r.Rules = []string{"AGR-MD", "REC-SHAPE", "AGR-C04b", "DECL-ID", "AGR-C04n", "AGR-C04l", "CONS", "AGR-C04u", "AGR-C02b", "AGR-C04e", "EXH-b", "TPL-4", "REC-kind", "GEN-ID", "CONST-EXACT", "FLW-C09a", "AGR-C09b", "UTF8-SLICE"}
+	r.Rules = []string{"AGR-MD", "REC-SHAPE", "AGR-C04b", "DECL-ID", "AGR-C04n", "AGR-C04l", "AGR-C04k", "CONS", "AGR-C04u", "AGR-C02b", "AGR-C04e", "EXH-b", "TPL-4", "REC-kind", "GEN-ID", "CONST-EXACT", "FLW-C09a", "AGR-C09b", "UTF8-SLICE", "ALIAS-APPEND", "STATE-PKG", "PRINTF"}
+	printfRule(w, r, "generator/sql")
+	statePkgRule(w, r, func(rel string) bool { return rel == "analysis" || rel == "analysis/sql" || rel == "generator/sql" || rel == "generator" })
+	aliasAppendRule(w, r, func(rel string) bool { return rel == "analysis" || rel == "generator/sql" || rel == "generator" })
 	mentionDeclare(w, r, "AGR-MD", "generator/sql", []string{"generator/sql.functionName", "generator/sql.typeID"}, "generator/sql.codeFor", map[string]bool{"generator/sql.functionName": true, "generator/sql.codeForBasicOrTime": true, "generator/sql.codeForEnum": true, "generator/sql.jsonValidations": true})
 	recursionShape(w, r, "REC-SHAPE", "generator/sql.typeID", "generator/sql.codeFor")
 	siblingAgreement(w, r, "EXH-b", []string{"generator/sql.codeFor", "generator/sql.typeID"})
@@ -41,6 +45,7 @@ func checkC04(w *World, r *Result) {
 	// the key set itself: which fields are ignored and under which key a field is written (rules shared with C09)
 	checkJSONName(w, r)
 	checkExported(w, r)
+	checkEmptyKeyList(w, r)
 	for _, o := range subc.Obs {
 		if strings.HasPrefix(o.Func, "generator/sql") {
 			r.add(o)
@@ -195,6 +200,42 @@ func checkArrayFragments(w *World, r *Result) {
 			r.cond(got == f.want, "AGR-C04n", fi.Name, f.what+" only for "+f.want+" arrays", w.Pos(s.Pos()), "set under a test of Len that selects exactly the "+f.want+" case", "the "+f.what+" is set for '"+got+"' arrays instead of exactly the "+f.want+" case: e.g. `[]` is accepted for a fixed-length array, or null/empty rejected for a slice")
 		}
 	}
+	// the length criterion is a conjunct of the RETURN expression, outside the aggregate sub-select: inside
+	// bool_and(...) it is evaluated once per element -- never for an empty array, where the aggregate is NULL and the
+	// CHECK passes
+	pa := w.ByRel["generator/sql"]
+	if va, _ := pa.Types.Scope().Lookup("vArray").(*types.Const); va != nil {
+		tpl := constant.StringVal(va.Val())
+		ri := strings.Index(tpl, "RETURN (SELECT")
+		if ri < 0 {
+			Undecided("AGR-C04n: the array validator no longer returns a (SELECT bool_and(...)) expression")
+		}
+		// position where the parenthesis opened by "(SELECT" closes
+		depth, closeAt := 0, -1
+		for i := ri + len("RETURN "); i < len(tpl); i++ {
+			if tpl[i] == '(' {
+				depth++
+			} else if tpl[i] == ')' {
+				depth--
+				if depth == 0 {
+					closeAt = i
+					break
+				}
+			}
+		}
+		// holes of the template in order; the criterion is the hole filled from the variable set under Len >= 0
+		holes := verbRe.FindAllStringIndex(tpl, -1)
+		inside := 0
+		for _, h := range holes {
+			if h[0] > ri && h[0] < closeAt {
+				inside++
+			}
+		}
+		// exactly one hole may sit inside the sub-select: the element validator's name
+		r.cond(closeAt > 0 && inside == 1, "AGR-C04n", "generator/sql.<package-level>", "length criterion outside the aggregate", w.Pos(va.Pos()),
+			"the sub-select holds only the element validator; the criterion follows its closing parenthesis",
+			fmt.Sprintf("%d holes are filled inside (SELECT bool_and(...)): a criterion placed inside the aggregate is evaluated per element and never for `[]`, for which bool_and is NULL -- an empty array then passes the CHECK of a fixed-length array", inside))
+	}
 	// map accepts null
 	p := w.ByRel["generator/sql"]
 	vm, _ := p.Types.Scope().Lookup("vMap").(*types.Const)
@@ -296,6 +337,31 @@ func checkUnionEnumValidators(w *World, r *Result) {
 		}
 		return true
 	})
+	// one case per member: the append of the WHEN branch is not under any condition inside the member loop
+	for _, as := range appendStmts(info, fi.Decl.Body, "") {
+		call := as.Rhs[0].(*ast.CallExpr)
+		if len(call.Args) != 2 {
+			continue
+		}
+		sp, ok := ast.Unparen(call.Args[1]).(*ast.CallExpr)
+		if !ok || fullName(calleeOf(info, sp)) != "fmt.Sprintf" {
+			continue
+		}
+		if f, _ := verbArgs(info, sp); !strings.Contains(f, "WHEN data->>'Kind'") {
+			continue
+		}
+		var cs []string
+		for _, c := range pathCondsNoLoop(fi, as) {
+			if c.expr != nil {
+				t := es(c.expr)
+				if !c.truth {
+					t = "!(" + t + ")"
+				}
+				cs = append(cs, t)
+			}
+		}
+		r.cond(len(cs) == 0, "AGR-C04u", fi.Name, "one WHEN branch per member", w.Pos(as.Pos()), "the branch is appended on every iteration of the loop over Members", "the WHEN branch of a member is only appended when {"+strings.Join(cs, ", ")+"}: a member without branch falls into ELSE RETURN FALSE, so documents Go emits for it are rejected")
+	}
 	r.cond(okCase, "AGR-C04u", fi.Name, "case <Kind> => validator(member)(Data)", fnPos(w, fi), "RETURN functionName(member)(data->'Data')", "a member case does not validate Data with the member's own validator")
 	// enum
 	ef := w.MustFunc("generator/sql.codeForEnum")
@@ -328,4 +394,72 @@ func checkUnionEnumValidators(w *World, r *Result) {
 		return true
 	})
 	r.cond(all, "AGR-C04e", et.Name, "tuple lists every member", fnPos(w, et), "no filter: every value Go can emit is in the tuple", "enumTuple filters members: a value Go can emit is rejected")
+}
+
+// checkEmptyKeyList (AGR-C04k): `key IN (<joined keys>)` is not valid SQL for an empty list, so the struct
+// validator replaces it by TRUE. The replacement must be guarded by the emptiness of the very list that is joined
+// (the keys kept after the Exported() filter), not of a list that is merely usually as long (all the fields).
+func checkEmptyKeyList(w *World, r *Result) {
+	fi := w.MustFunc("generator/sql.codeForStruct")
+	info := fi.Pkg.TypesInfo
+	var joined ast.Expr
+	var target types.Object
+	ast.Inspect(fi.Decl.Body, func(x ast.Node) bool {
+		as, ok := x.(*ast.AssignStmt)
+		if !ok || len(as.Lhs) != 1 || len(as.Rhs) != 1 {
+			return true
+		}
+		if !strings.Contains(es(as.Rhs[0]), "IN (") {
+			return true
+		}
+		ast.Inspect(as.Rhs[0], func(y ast.Node) bool {
+			if call, ok := y.(*ast.CallExpr); ok && fullName(calleeOf(info, call)) == "strings.Join" && len(call.Args) == 2 {
+				joined = call.Args[0]
+				if id := identOf(as.Lhs[0]); id != nil {
+					target = objOf(info, id)
+				}
+			}
+			return true
+		})
+		return true
+	})
+	if joined == nil || target == nil {
+		Undecided("AGR-C04k: the `key IN (...)` list of the struct validator was not found")
+	}
+	found := false
+	ast.Inspect(fi.Decl.Body, func(x ast.Node) bool {
+		is, ok := x.(*ast.IfStmt)
+		if !ok {
+			return true
+		}
+		assigns := false
+		for _, st := range is.Body.List {
+			if as, ok := st.(*ast.AssignStmt); ok && len(as.Lhs) == 1 {
+				if id := identOf(as.Lhs[0]); id != nil && objOf(info, id) == target {
+					assigns = true
+				}
+			}
+		}
+		if !assigns {
+			return true
+		}
+		found = true
+		good := false
+		if be, ok := ast.Unparen(is.Cond).(*ast.BinaryExpr); ok {
+			if call, ok := ast.Unparen(be.X).(*ast.CallExpr); ok && isBuiltinCall(info, call, "len") && len(call.Args) == 1 {
+				if k, isK := constInt(info, be.Y); isK {
+					emptyTrue := evalCmp(be.Op, 0, k)
+					oneFalse := !evalCmp(be.Op, 1, k) && !evalCmp(be.Op, 2, k)
+					good = emptyTrue && oneFalse && render(info, call.Args[0], nil) == render(info, joined, nil)
+				}
+			}
+		}
+		r.cond(good, "AGR-C04k", fi.Name, "empty key list replaced by TRUE when "+es(is.Cond), w.Pos(is.Pos()),
+			"the guard tests the emptiness of the joined list itself ("+es(joined)+")",
+			"the `key IN (...)` fallback is guarded by `"+es(is.Cond)+"`, which is not the emptiness of the joined list "+es(joined)+": a struct whose fields are all ignored (unexported, json:\"-\") yields `key IN ()`, which is not valid SQL, and adding an ignored field changes the output")
+		return true
+	})
+	if !found {
+		r.bad("AGR-C04k", fi.Name, "empty key list replaced by TRUE", fnPos(w, fi), "no fallback for an empty key list: a struct without serialised fields yields `key IN ()`, which is not valid SQL")
+	}
 }
